@@ -75,12 +75,26 @@ def liveness():
     # --- real kernel
     real = {}
     c = subprocess.Popen(["sleep", "60"], stdout=subprocess.DEVNULL)
-    time.sleep(0.05)
+    for _ in range(500):            # wait for the exec to complete
+        try:
+            if os.readlink("/proc/%d/exe" % c.pid).endswith("sleep"):
+                break
+        except OSError:
+            pass
+        time.sleep(0.01)
     real["live"] = _probe(os, open, c.pid)
     pid = os.fork()
     if pid == 0:
         os._exit(0)
-    time.sleep(0.1)
+    for _ in range(500):            # wait until the child really is a zombie (loaded machines)
+        try:
+            with open("/proc/%d/stat" % pid, "rb") as f:
+                st = f.read()
+            if st[st.rfind(b")") + 2:st.rfind(b")") + 3] == b"Z":
+                break
+        except OSError:
+            pass
+        time.sleep(0.01)
     real["zombie"] = _probe(os, open, pid)
     os.waitpid(pid, 0)
     real["reaped"] = _probe(os, open, pid)
